@@ -34,7 +34,7 @@ func isNilLike(v reflect.Value) bool {
 			}
 			v = v.Elem()
 		case reflect.Slice, reflect.Map:
-			return v.IsNil()
+			return v.IsNil() || v.Len() == 0 // nil and empty containers are interchangeable
 		default:
 			return false
 		}
@@ -71,8 +71,8 @@ func (c *eqctx) eq(a, b reflect.Value, path string) string {
 		return ""
 	case bigFloatType:
 		x, y := a.Interface().(big.Float), b.Interface().(big.Float)
-		if x.Cmp(&y) != 0 {
-			return fmt.Sprintf("%s: big.Float %s vs %s", path, x.String(), y.String())
+		if x.Cmp(&y) != 0 && x.Text('g', -1) != new(big.Float).SetPrec(x.Prec()).Set(&y).Text('g', -1) {
+			return fmt.Sprintf("%s: big.Float %s vs %s", path, x.Text('g', -1), y.Text('g', -1))
 		}
 		return ""
 	case bigRatType:
@@ -222,6 +222,14 @@ func numOf(v reflect.Value) (*big.Float, bool) {
 func (c *eqctx) loose(a, b reflect.Value, path string) string {
 	an, bn := isNilLike(a), isNilLike(b)
 	if an || bn {
+		if !an && bn {
+			// a struct without serialisable fields is an empty object: it may come back as an empty map
+			if sa := strip(a); sa.IsValid() && sa.Kind() == reflect.Struct && sa.Type() != timeType &&
+				sa.Type() != bigIntType && sa.Type() != bigFloatType && sa.Type() != bigRatType && sa.Type() != listType &&
+				len(hproseFields(sa.Type(), nil, nil)) == 0 {
+				return ""
+			}
+		}
 		if an != bn {
 			return fmt.Sprintf("%s: nil-ness %v vs %v (iface)", path, an, bn)
 		}
@@ -260,7 +268,7 @@ func (c *eqctx) loose(a, b reflect.Value, path string) string {
 			return fmt.Sprintf("%s: integer %v came back as %s", path, a.Interface(), b.Type())
 		}
 		if x.Cmp(y) != 0 {
-			return fmt.Sprintf("%s: integer %v vs %v", path, a.Interface(), b.Interface())
+			return fmt.Sprintf("%s: integer %s vs %s", path, x.Text('f', 0), y.Text('f', 0))
 		}
 		return ""
 	}
@@ -315,6 +323,14 @@ func (c *eqctx) loose(a, b reflect.Value, path string) string {
 			return ""
 		}
 		return fmt.Sprintf("%s: string %q came back as %s %v", path, a.String(), b.Type(), b.Interface())
+	}
+	if a.Type() == bigRatType && b.Kind() == reflect.String {
+		// a non-integer rational is a string "a/b" on the wire; an interface{} destination keeps the text
+		x := a.Interface().(big.Rat)
+		if x.String() == b.String() {
+			return ""
+		}
+		return fmt.Sprintf("%s: big.Rat %s vs %q", path, x.String(), b.String())
 	}
 	switch a.Type() {
 	case timeType, uuidType, bigFloatType, bigRatType:
